@@ -38,6 +38,9 @@ CHECKS["C04"] = dict(cat="model_checking", tech="TLC model checking of the non-i
 CHECKS["C10"] = dict(cat="model_checking", tech="TLC model checking of LpmImpl.tla ScopeOk (scope = matched length in the client's family, bounded) + ECS queries built from TLC-enumerated subnet sets and an enumerated shapes grid sent through the real handlers + TLC trace validation of OPT/ECS against Resolve.tla JudgeOpt (ResolveTrace)",
     text="The scope both lookup algorithms report is model-checked truthful and bounded on the toy spaces; every toy client of the enumerated subnet sets (canonical and with host bits on the wire), all IPv4 source lengths and the interesting IPv6 ones, map / no map / no match, REFUSED / referral / NXDOMAIN / answer and cache-hit paths are sent through the real handler on four backends and TLC judges OPT presence, ECS echo and scope of every packed response.",
     note=SEM_NOTE + " ECS options that already carry a scope or a family other than 1/2 are left to C13.", ref="4.5")
+CHECKS["C11"] = dict(cat="model_checking", tech="TLC model checking of Wrs.tla (reservoir of db/wrs.go: Sound, Exact, TopK for all weight vectors / max-answer / draw tuples of a grid; Proportional by counting) + real handlers over generated candidate sets judged by Resolve.tla (SelectionOk, AdditionalOk) + seeded 20000-draw frequency vectors judged by TLC within 6 sigma (ResolveTrace JudgeFreq) + concurrent draws under the Go race detector",
+    text="The selection algorithm is model-checked on a grid (bounds, soundness, top-k, proportionality by counting); the real server is asked address / MX / delegation queries over generated candidate sets (weights incl. 0 and 2^32-1, locations, wildcards, max-answer 1..8) with every response judged by TLC for cardinality, non-repetition, visibility and weight-0 exclusion; proportionality is decided on seeded 20000-draw frequency vectors per backend; concurrent use of the shared generator runs under the race detector.",
+    note=SEM_NOTE + " Proportionality: statistical with a deterministic seed, resolution about 2-3 % absolute; max-answer > 1 inclusion probabilities are not judged.", ref="4.7")
 NA = {}
 props = [json.loads(l)["id"] for l in open(os.path.join(V, "properties.jsonl"))]
 m = {
